@@ -15,8 +15,13 @@ def build(desc):
 
     nv = desc["nv"]
     vcls = desc.get("vcls")
+    vuid = desc.get("vuid")
     if desc.get("eq"):
         vs = [C.EqVertex(attributes={"i": i}) for i in range(nv)]
+    elif vuid:
+        # explicit, possibly REPEATED vertex uids (e.g. a clone of a graph linked behind its original)
+        nvc = len(C.VERTEX_CLASSES) if desc.get("wide") else 4
+        vs = [(C.VERTEX_CLASSES[vcls[i % len(vcls)] % nvc] if vcls else C.Vertex)(uid=100 + vuid[i % len(vuid)], attributes={"i": i}) for i in range(nv)]
     else:
         nvc = len(C.VERTEX_CLASSES) if desc.get("wide") else 4
         vs = [C.make_vertex(i, None if not vcls else C.VERTEX_CLASSES[vcls[i % len(vcls)] % nvc]) for i in range(nv)]
@@ -144,10 +149,11 @@ def eq_graph_descs(max_v=5, max_e=8):
 def graph_descs(max_v=8, max_e=14, classes=6, vcls=True, max_reassign=3, min_v=1, min_e=0, wide=False):
     cls = st.integers(0, classes - 1)
 
-    def mk(nv, edges, reassign, vc, luid=None):
+    def mk(nv, edges, reassign, vc, luid=None, vuid=None):
         return {
             **({"wide": True} if wide else {}),
             **({"luid": luid} if luid else {}),
+            **({"vuid": vuid} if vuid else {}),
             "nv": nv,
             "vcls": vc,
             "edges": [[c, a % nv, b % nv] for c, a, b in edges],
@@ -160,5 +166,6 @@ def graph_descs(max_v=8, max_e=14, classes=6, vcls=True, max_reassign=3, min_v=1
         st.lists(st.tuples(cls, st.integers(0, max_v - 1), st.integers(0, max_v - 1)), min_size=min_e, max_size=max_e),
         st.lists(st.tuples(st.integers(0, max_e - 1), st.booleans(), st.integers(0, max_v - 1)), max_size=max_reassign),
         (st.one_of(st.none(), st.lists(st.integers(0, 5 if wide else 3), min_size=1, max_size=4)) if vcls else st.none()),
+        st.one_of(st.none(), st.none(), st.none(), st.lists(st.integers(0, 3), min_size=1, max_size=3)),
         st.one_of(st.none(), st.none(), st.none(), st.lists(st.integers(0, 3), min_size=1, max_size=3)),
     )
